@@ -73,3 +73,6 @@ pub fn packet_v3v4_from_raw(
         mac: None,
     }
 }
+
+// ---- C13/C14 (np_nts_h): name the request identifier type from outside the private module.
+pub use super::RequestIdentifier as RequestId;
